@@ -224,7 +224,17 @@ pub fn run(ctx: &Ctx) -> (Spec, Report) {
             p.type_depth = 3;
             p.mods = 1;
             let lang = ALL_LANGS[rng.below(6)];
-            let prog = gen_program(rng, &p, Some(lang));
+            let mut prog = gen_program(rng, &p, Some(lang));
+            // some structs / enums are shared as a plain string (`serialized_as`): they are then emitted as aliases, keep
+            // their name, and the container's rename_all (which is about fields / variants) must not reach that name
+            for it in prog.items.iter_mut().filter(|i| i.is_annotated() && i.generics.is_empty() && matches!(i.kind, Kind::Struct(_) | Kind::Enum { .. })) {
+                if rng.chance(1, 7) {
+                    it.serialized_as = Some("String".into());
+                    if it.rename_all.is_none() && rng.coin() {
+                        it.rename_all = Some(rng.pick(&["camelCase", "snake_case", "lowercase", "UPPERCASE", "kebab-case", "SCREAMING_SNAKE_CASE"]).to_string());
+                    }
+                }
+            }
             let src = prog.render(rng, &RenderOpts { vary: true, prelude: false, strip_typeshare: false });
             let src = if rng.chance(1, 4) { crate::model::relayout(&src, rng.range(1, 4)) } else { src };
             let generic_enum = prog.items.iter().any(|i| matches!(i.kind, Kind::Enum { .. }) && !i.generics.is_empty());
@@ -246,7 +256,7 @@ pub fn run(ctx: &Ctx) -> (Spec, Report) {
     );
     let spec = Spec {
         level: "exploration",
-        rule: format!("{n} programs of 3-10 mutually referencing types (struct, generic struct, unit enum, tagged enum with newtype and struct variants, alias, newtype), references direct / through containers / as generic arguments, a random subset carrying serde(rename) on the type, prefix on or off (Swift, Kotlin), 6 languages; every type name used in a field, payload, generic argument, alias target, variant parent or variant-helper reference must equal the name of the definition carrying the same stem(s); distinct = (language, target kind, site, renamed?, prefix?, nested?)"),
+        rule: format!("{n} programs of 3-10 mutually referencing types (struct, generic struct, unit enum, tagged enum with newtype and struct variants, alias, newtype), references direct / through containers / as generic arguments, a random subset carrying serde(rename) on the type, a seventh of the structs / enums shared through `serialized_as` (with or without a container rename_all), prefix on or off (Swift, Kotlin), 6 languages; every type name used in a field, payload, generic argument, alias target, variant parent or variant-helper reference must equal the name of the definition carrying the same stem(s); distinct = (language, target kind, site, renamed?, prefix?, nested?)"),
         assumptions: vec!["use and definition are paired by stems, so either spelling passes as long as both sides agree".into()],
         exhaustive: None,
     };
